@@ -194,6 +194,7 @@ class Ctx:
     self.samples: list = []
     self.violations: list = []   # (signature, detail, replay_path)
     self.known_hits: list = []
+    self.drift: dict = {}        # internal sub-term differs from the spec although the property holds
     self.assumptions: list[str] = []
     self.notes: dict = {}
     self.distinct: set = set()
@@ -236,6 +237,15 @@ class Ctx:
     if len(self.samples) < limit:
       self.samples.append(obj)
 
+  def record(self, kind: str, m: dict):
+    """Routes one replay result: property-level mismatches are violations; mismatches of internal
+    sub-terms in a case whose property-level comparisons all pass are recorded as drift."""
+    if m.get('drift'):
+      d = self.drift.setdefault(m['sig'], {'n': 0, 'example': m['detail'][:400]})
+      d['n'] += 1
+    else:
+      self.mismatch(kind, m['case'], m['sig'], m['detail'])
+
   def mismatch(self, kind: str, case: Any, signature: str, detail: str, extra: Any = None):
     """Records a spec/code disagreement. Known findings are reported but do not fail."""
     for k in self._known:
@@ -271,6 +281,7 @@ class Ctx:
         'exhaustive': bool(exhaustive and all(r.mode == 'bfs' for r in self.tlc_runs)),
         'tlc_runs': [r.brief() for r in self.tlc_runs],
         'known_findings_hit': [h[1] for h in self.known_hits],
+        'spec_drift': self.drift,
     }
     cov.update(self.notes)
     ev = {
@@ -285,6 +296,9 @@ class Ctx:
       json.dump(ev, f, indent=1, default=str)
     for sig, what in self.known_hits:
       print(f'KNOWN-FINDING: property={self.prop} {what}')
+    for sig, d in sorted(self.drift.items()):
+      print(f'NOTE: {self.prop} sub-term {sig} differs from the specification in {d["n"]} case(s) although the property-level '
+            f'comparisons of those cases pass (the code was restructured; not a violation): {d["example"][:200]}')
     if self.violations:
       seen = set()
       for sig, detail, path in self.violations:
@@ -375,3 +389,15 @@ def per_case(one: Callable[[Any], list], kind: str = '') -> Callable[[list], lis
     return out
   _many.__name__ = getattr(one, '__name__', 'replay')
   return _many
+
+
+def settle(out: list, is_property: Callable[[str], bool]) -> list:
+  """Per-case policy: a mismatch of an *internal* sub-term (which method computes which part) is a
+  violation only if the same case also fails a property-level comparison; otherwise the property
+  holds on this case and the mismatch is downgraded to drift (reported, exit status unaffected)."""
+  real = [m for m in out if m.get('sig') != '__stat__']
+  if any(is_property(m['sig']) for m in real):
+    return out
+  for m in real:
+    m['drift'] = True
+  return out
